@@ -283,6 +283,18 @@ pub fn c32_commitment() {
   kani::cover!(len == 0, "empty commitment (rune 0)");
 }
 
+/// the reserved names are exactly those at or above Rune::RESERVED (which c33_steps_table shows to
+/// be the value of the first 27-letter name)
+//# props: C32
+//# kind: complete (every u128)
+//# fns: Rune::is_reserved
+#[cfg_attr(kani, kani::proof)]
+pub fn c32_is_reserved_exact() {
+  let n: u128 = kani::any();
+  assert!(Rune(n).is_reserved() == (n >= 6402364363415443603228541259936211926u128), "C32.is_reserved_iff_at_or_above_first_27_letter_name");
+  assert!(Rune::RESERVED == 6402364363415443603228541259936211926u128, "C32.reserved_constant");
+}
+
 /// reserved(block, tx) never panics, lands in the reserved range and is injective
 //# props: C32, C11
 //# kind: complete (every pair of (u64 block, u32 tx))
